@@ -31,6 +31,7 @@ type Family struct {
 	Before  func(w *drv.World) any                        // snapshot taken before the final letter
 	After   func(w *drv.World, letter string, before any) // family invariants after the final letter
 	Prefix  []string                                      // letters applied before the search starts (non-initial start state)
+	Charge  string                                        // property that owns every disagreement seen after this family's letters (content preservation clauses)
 }
 
 var Families = map[string]*Family{}
@@ -133,9 +134,12 @@ func Worker(raw json.RawMessage) any {
 			}
 		}
 		s.Dis = w.Dis
-		for _, d := range w.Dis {
+		for i, d := range s.Dis {
 			if d.Fatal {
 				s.Fatal = true
+			}
+			if f.Charge != "" && !d.Has(f.Charge) {
+				s.Dis[i].Props = append(append([]string{}, d.Props...), f.Charge)
 			}
 		}
 		res.Succs = append(res.Succs, s)
